@@ -38,7 +38,7 @@ ASSUMPTIONS = [
     "verovio is not installed: the lxml branch of the MEI reader is the one that runs",
 ]
 COMPONENTS = {"real": ["partitura.io.importkern", "partitura.io.exportkern", "partitura.io.importmei", "partitura.io.exportmei", "partitura.io.load_score", "numpy loadtxt/genfromtxt/savetxt", "lxml"], "stub": ["raw file layer (SimFS)", "HTTP client (fake urlopen)", "independent kern and MEI encoders (model/ref_kern.py, model/ref_mei.py)"]}
-PROBES = ("kern_spine_split_fallback_reader", "kern_spine_split_with_notes", "kern_same_part", "mei_dur_ppq", "kern_multi_spine", "kern_ties", "kern_tuplets", "kern_grace", "mei_attr_defs", "mei_child_defs", "mei_no_ppq", "mei_layers", "mei_tuplets", "mei_meter_change", "upper_case_extension", "url_route", "url_short_reads", "read_fault", "write_fault", "export_roundtrip_checked", "rich_export_strict_kern", "rich_export_strict_mei", "rich_export_strict_tuplets")
+PROBES = ("kern_spine_split_fallback_reader", "kern_spine_split_with_notes", "kern_same_part", "mei_dur_ppq", "kern_multi_spine", "kern_ties", "kern_tuplets", "kern_grace", "mei_attr_defs", "mei_child_defs", "mei_no_ppq", "mei_layers", "mei_tuplets", "mei_meter_change", "mei_key_change_with_meter_change", "upper_case_extension", "url_route", "url_short_reads", "read_fault", "write_fault", "export_roundtrip_checked", "rich_export_strict_kern", "rich_export_strict_mei", "rich_export_strict_tuplets")
 
 
 # ----------------------------------------------------------------------------
@@ -86,7 +86,7 @@ def generate(seed, tier, cfg):
 
 def _knobs(k, rich, ext, route):
     return {
-        "knobs": {"rich": rich, "ext": ext, "route": route, "chunk": k.choice((0, 0, 7, 64)), "style": {"attr_defs": k.random() < 0.5, "beams": False, "ppq": k.random() < 0.5, "mrest": True, "durppq": k.random() < 0.5, "naturals": k.random() < 0.5, "same_part": k.random() < 0.7, "split": [k.randrange(0, 8), k.randrange(0, 8), k.random() < 0.6] if k.random() < 0.45 else None}},
+        "knobs": {"rich": rich, "ext": ext, "route": route, "chunk": k.choice((0, 0, 7, 64)), "style": {"attr_defs": k.random() < 0.5, "beams": False, "ppq": k.random() < 0.5, "mrest": True, "durppq": k.random() < 0.5, "naturals": k.random() < 0.5, "keychg": k.choice((None, None, 2, -3, 0, 5)), "same_part": k.random() < 0.7, "split": [k.randrange(0, 8), k.randrange(0, 8), k.random() < 0.6] if k.random() < 0.45 else None}},
     }["knobs"]
 
 
@@ -325,6 +325,11 @@ def run_in(res, fs, asc, kn, fmt, path, faults, shape):
                 if [t[1:] for t in ps["timesigs"]][:1] != [stf["meter"]]:
                     res.violation("N2-structure", "load", "MEI staff %d: meter %s, declared %s" % (stf["n"], ps["timesigs"][:1], stf["meter"]), site="meter")
                     return
+                if stf.get("keys"):
+                    res.probe("mei_key_change_with_meter_change")
+                    if [(a, b) for a, b in ps["keys"]] != stf["keys"]:
+                        res.violation("N2-structure", "load", "MEI staff %d: key signatures %s, declared %s" % (stf["n"], [(str(a), b) for a, b in ps["keys"]], [(str(a), b) for a, b in stf["keys"]]), site="key-change")
+                        return
                 if len(stf["timesigs"]) > 1:
                     res.probe("mei_meter_change")
                     if ps["timesigs"] != sorted(stf["timesigs"]):
